@@ -136,6 +136,8 @@ pub struct Unit {
     pub ghost: Option<Ghost>,
     pub subst: Vec<(Vec<String>, String)>,
     pub keep_std: bool,
+    /// `var.await` -> `await_value(var)` (units whose functions receive futures as values)
+    pub await_vars: bool,
     pub drop_derives: BTreeSet<String>,
     pub parts: Vec<Part>,
 }
@@ -208,7 +210,7 @@ enum Sect {
 }
 
 pub fn parse_spec(text: &str, prelude_dir: &str) -> Result<Unit, String> {
-    let mut unit = Unit { name: String::new(), ghost: None, subst: vec![], keep_std: false, drop_derives: BTreeSet::new(), parts: vec![] };
+    let mut unit = Unit { name: String::new(), ghost: None, subst: vec![], keep_std: false, await_vars: false, drop_derives: BTreeSet::new(), parts: vec![] };
     let mut raw = String::new();
     let mut cur: Option<FnSpec> = None;
     let mut sect = Sect::None;
@@ -287,6 +289,7 @@ pub fn parse_spec(text: &str, prelude_dir: &str) -> Result<Unit, String> {
                 unit.subst.push(parse_subst(rest).map_err(|e| err(&e))?);
             }
             "keepstd" => unit.keep_std = true,
+            "awaitvars" => unit.await_vars = true,
             "dropderive" => {
                 for n in ws[1..].iter().flat_map(|w| w.split(',')) {
                     if !n.is_empty() {
